@@ -220,9 +220,9 @@ func (l *Lexer) Next() (TokenType, []byte) {
 
 // The following functions follow the specifications at https://html.spec.whatwg.org/multipage/parsing.html
 
-// isTagNameEnd returns true for the characters that may follow a tag name: whitespace, '/', '>' or the end of input.
+// isTagNameEnd returns true for the characters that may follow a tag name: whitespace, '/' or '>'. The end of input, which may follow as well, is for the caller to check.
 func isTagNameEnd(c byte) bool {
-	return c == ' ' || c == '\t' || c == '\n' || c == '\f' || c == '\r' || c == '/' || c == '>' || c == 0
+	return c == ' ' || c == '\t' || c == '\n' || c == '\f' || c == '\r' || c == '/' || c == '>'
 }
 
 func (l *Lexer) shiftRawText() []byte {
@@ -250,7 +250,7 @@ func (l *Lexer) shiftRawText() []byte {
 						}
 						l.r.Move(1)
 					}
-					if h := ToHash(parse.ToLower(parse.Copy(l.r.Lexeme()[mark+2:]))); h == l.rawTag && isTagNameEnd(c) { // copy so that ToLower doesn't change the case of the underlying slice
+					if h := ToHash(parse.ToLower(parse.Copy(l.r.Lexeme()[mark+2:]))); h == l.rawTag && (isTagNameEnd(c) || c == 0 && l.r.Err() != nil) { // copy so that ToLower doesn't change the case of the underlying slice
 						l.r.Rewind(mark)
 						return l.r.Shift()
 					}
@@ -280,7 +280,7 @@ func (l *Lexer) shiftRawText() []byte {
 								}
 								l.r.Move(1)
 							}
-							if h := ToHash(parse.ToLower(parse.Copy(l.r.Lexeme()[mark:]))); h == Script && isTagNameEnd(c) { // copy so that ToLower doesn't change the case of the underlying slice
+							if h := ToHash(parse.ToLower(parse.Copy(l.r.Lexeme()[mark:]))); h == Script && (isTagNameEnd(c) || c == 0 && l.r.Err() != nil) { // copy so that ToLower doesn't change the case of the underlying slice
 								if !isEnd {
 									inScript = true
 								} else {
